@@ -417,7 +417,7 @@ def _profile(frame, event, arg):
             _TRACE["funcs"].add(f"{fn[len(REPO) + 1:]}:{frame.f_code.co_qualname}")
 
 
-def run_chunk(prop, tier, check_name, idxs, trace_first):
+def run_chunk(prop, tier, check_name, idxs, trace_first, stopfile=None):
     """Worker entry: explore a chunk of configurations of one check."""
     mod = _load(prop)
     chk = next(c for c in mod.checks(tier) if c.name == check_name)
@@ -425,6 +425,11 @@ def run_chunk(prop, tier, check_name, idxs, trace_first):
     torch.set_num_threads(1)
     outs = []
     for n, idx in enumerate(idxs):
+        if stopfile and os.path.exists(stopfile):
+            # the run already has more confirmed violations than it will print: the verdict (exit 1) is settled, the rest is not explored
+            outs.append({"check": chk.name, "idx": idx, "cfg": _js(chk.configs[idx]), "not_run": True, "violations": [], "inconclusive": [],
+                         "paths": 0, "obligations": 0, "discharged": 0})
+            continue
         outs.append(run_one(chk, idx, trace_first and n == 0))
     return outs
 
@@ -508,20 +513,43 @@ def main(argv=None):
             tasks.append((prop, args.tier, c.name, idxs[n:n + per], n == 0))
     results = []
     jobs = max(1, min(args.jobs, len(tasks)))
+    # fail fast: once this many violations outside the known-findings file are confirmed the verdict is settled (exit 1) and the
+    # remaining configurations are not explored (a broken tree otherwise costs hours of satisfiable non-linear queries)
+    failfast = int(os.environ.get("VERIF_FAILFAST", "40") or 0)
+    import tempfile
+    stopfile = os.path.join(tempfile.gettempdir(), f"symtorch_stop_{os.getpid()}_{int(t0)}")
+    known = load_known()
+    nnew = [0]
+
+    def note(rs):
+        for r in rs:
+            for v in r.get("violations", []):
+                if match_known(known, prop, r["check"], v) is None:
+                    nnew[0] += 1
+        if failfast and nnew[0] >= failfast and not os.path.exists(stopfile):
+            open(stopfile, "w").close()
     if jobs == 1 and sum(len(t[3]) for t in tasks) <= 8:
         for t in tasks:
-            results.extend(run_chunk(*t))
+            rs = run_chunk(*t, stopfile)
+            results.extend(rs)
+            note(rs)
     else:
         ctx = mp.get_context("spawn")
         with cf.ProcessPoolExecutor(max_workers=jobs, mp_context=ctx) as ex:
-            futs = {ex.submit(run_chunk, *t): t for t in tasks}
+            futs = {ex.submit(run_chunk, *t, stopfile): t for t in tasks}
             for f in cf.as_completed(futs):
                 try:
-                    results.extend(f.result())
+                    rs = f.result()
+                    results.extend(rs)
+                    note(rs)
                 except Exception as exn:
                     t = futs[f]
                     results.append({"check": t[2], "idx": -1, "cfg": {"chunk": list(t[3])[:5]}, "inconclusive": [f"worker crashed: {exn!r}"],
                                     "violations": [], "paths": 0, "obligations": 0, "discharged": 0})
+    try:
+        os.remove(stopfile)
+    except OSError:
+        pass
     return summarize(mod, prop, args, seed, checks, results, t0)
 
 
@@ -588,6 +616,11 @@ def summarize(mod, prop, args, seed, checks, results, t0):
     for i in inconcl[:15]:
         print(f"INCONCLUSIVE check={i['check']} cfg={json.dumps(i['cfg'], default=str)[:200]}: {i['why'][:600]}")
     status = EXIT_VIOLATION if new_viol else (EXIT_INCONCLUSIVE if inconcl else EXIT_OK)
+    not_run = sum(1 for r in results if r.get("not_run"))
+    if not_run:
+        print(f"stopped early: {len(new_viol)} violations were already confirmed, {not_run} configurations were not explored (VERIF_FAILFAST=0 explores everything)")
+        if not new_viol:
+            status = EXIT_INCONCLUSIVE      # cannot happen (the stop flag is only raised by violations); never report unexplored work as held
     print(f"{prop} [{args.tier}] configs={len(results)} paths={agg['paths']} obligations={agg['obligations']} discharged={agg['discharged']} "
           f"nontrivial={agg['nontrivial']} violations(new)={len(new_viol)} known={sum(h['count'] for h in known_hits.values())} "
           f"inconclusive={len(inconcl)} solver={agg['solver_s']:.1f}s wall={wall:.1f}s -> exit {status}")
